@@ -280,6 +280,10 @@ func (codecHTTPBody) Name() string { return "body" }
 
 func (codecHTTPBody) ReadNext(b []byte, r io.Reader, limit int) ([]byte, int, error) {
 	var total int
+	total = len(b) // count the data carried over from the previous call
+	if total >= limit {
+		return b, limit, nil
+	}
 	for {
 		if len(b) == cap(b) {
 			// Add more capacity (let append pick how much).
@@ -290,6 +294,9 @@ func (codecHTTPBody) ReadNext(b []byte, r io.Reader, limit int) ([]byte, int, er
 		total += int(n)
 		if total > limit {
 			total = limit
+		}
+		if err == io.EOF && len(b) > total {
+			err = nil // deliver the remaining data before EOF
 		}
 		if err != nil || total == limit {
 			return b, total, err
